@@ -40,7 +40,7 @@ Proof.
   rewrite Hp. destruct sub; lia.
 Qed.
 
-Example add_sub_type_fits_sat : add_sub_type {| max64 := 18; max128 := 38; pow_i32 := true |} D64 9 3 4 1 = (10, 3, false).
+Example add_sub_type_fits_sat : add_sub_type {| max64 := 18; max128 := 38; pow_i32 := false; d2d_validates := true |} D64 9 3 4 1 = (10, 3, false).
 Proof. reflexivity. Qed.
 
 (* ------------------------------------------------------------ mul_type_fits *)
@@ -63,11 +63,11 @@ Proof.
   - apply Z.mul_lt_mono_pos_r; [apply pow10_pos|]; lia.
 Qed.
 
-Example mul_type_fits_sat : mul_type {| max64 := 18; max128 := 38; pow_i32 := true |} D64 4 1 6 2 = Some (10, 3, false).
+Example mul_type_fits_sat : mul_type {| max64 := 18; max128 := 38; pow_i32 := false; d2d_validates := true |} D64 4 1 6 2 = Some (10, 3, false).
 Proof. reflexivity. Qed.
 
 (* ------------------------------------------------------------ exactness when not clamped *)
-Definition P0' : dparams := {| max64 := 18; max128 := 38; pow_i32 := true |}.
+Definition P0' : dparams := {| max64 := 18; max128 := 38; pow_i32 := false; d2d_validates := true |}.
 Definition params_ok (P : dparams) : Prop :=
   0 <= max64 P /\ 0 <= max128 P /\ 10 ^ max64 P < 2 ^ 63 /\ 10 ^ max128 P < 2 ^ 127.
 
@@ -81,17 +81,90 @@ Proof.
   - change (128 - 1) with 127. lia.
 Qed.
 
+Lemma fits_prim_le : forall P k p v, params_ok P -> 0 <= p <= max_prec P k -> Z.abs v <= 10 ^ p ->
+  in_range Signed (prim_bits k) v = true.
+Proof.
+  intros P k p v (H64 & H128 & B64 & B128) Hp Hv. apply in_range_iff.
+  assert (Hle : 10 ^ p <= 10 ^ max_prec P k) by (apply Z.pow_le_mono_r; lia).
+  destruct k; cbn [prim_bits max_prec lo hi] in *.
+  - change (64 - 1) with 63. lia.
+  - change (128 - 1) with 127. lia.
+Qed.
+
+Lemma digits_fuel_nonneg : forall f v, 0 <= digits_fuel f v.
+Proof. induction f as [|f IH]; intros v; cbn [digits_fuel]; [lia|]. destruct (v =? 0); [lia|]. specialize (IH (v / 10)). lia. Qed.
+
+Lemma pow10_succ : forall p, 1 <= p -> 10 ^ p = 10 * 10 ^ (p - 1).
+Proof. intros p Hp. replace p with (Z.succ (p - 1)) at 1 by lia. rewrite Z.pow_succ_r by lia. reflexivity. Qed.
+
+(* |v| < 10^p  ->  at most p digits are counted (whatever the fuel) *)
+Lemma digits_fuel_le : forall f v p, 0 <= p -> 0 <= v < 10 ^ p -> digits_fuel f v <= p.
+Proof.
+  induction f as [|f IH]; intros v p Hp Hv; cbn [digits_fuel]; [lia|].
+  destruct (v =? 0) eqn:E; [lia|]. apply Z.eqb_neq in E.
+  assert (Hp1 : 1 <= p). { destruct (Z.eq_dec p 0) as [->|]; [rewrite Z.pow_0_r in Hv; lia|lia]. }
+  pose proof (pow10_succ p Hp1) as Hs.
+  assert (Hd : 0 <= v / 10 < 10 ^ (p - 1)).
+  { split; [apply Z.div_pos; lia|apply Z.div_lt_upper_bound; lia]. }
+  specialize (IH (v / 10) (p - 1) ltac:(lia) Hd). lia.
+Qed.
+
+(* with enough fuel the count is the real number of digits: digits <= p -> |v| < 10^p *)
+Lemma digits_fuel_lt : forall f v p, 0 <= p -> 0 <= v < 10 ^ Z.of_nat f -> digits_fuel f v <= p -> v < 10 ^ p.
+Proof.
+  induction f as [|f IH]; intros v p Hp Hv Hd.
+  - change (Z.of_nat 0) with 0 in Hv. rewrite Z.pow_0_r in Hv. pose proof (pow10_pos p Hp). lia.
+  - cbn [digits_fuel] in Hd. destruct (v =? 0) eqn:E.
+    + apply Z.eqb_eq in E. pose proof (pow10_pos p Hp). lia.
+    + apply Z.eqb_neq in E. pose proof (digits_fuel_nonneg f (v / 10)) as Hn.
+      rewrite Nat2Z.inj_succ, Z.pow_succ_r in Hv by lia.
+      assert (Hq : 0 <= v / 10 < 10 ^ Z.of_nat f).
+      { split; [apply Z.div_pos; lia|apply Z.div_lt_upper_bound; lia]. }
+      specialize (IH (v / 10) (p - 1) ltac:(lia) Hq ltac:(lia)).
+      pose proof (pow10_succ p ltac:(lia)) as Hs.
+      pose proof (Z.div_mod v 10 ltac:(lia)) as Hdm. pose proof (Z.mod_pos_bound v 10 ltac:(lia)) as Hm. lia.
+Qed.
+
+Lemma validate_ok : forall P k x p, 0 <= p <= max_prec P k -> Z.abs x < 10 ^ p -> validate_precision P k x p = true.
+Proof.
+  intros P k x p Hp Hx. unfold validate_precision, digits.
+  apply andb_true_iff. split; [apply Z.leb_le; lia|]. apply orb_true_iff. right. apply Z.leb_le.
+  apply digits_fuel_le; lia.
+Qed.
+
+(* a validated value of a primitive really has at most p digits (primitive < 2^127 < 10^60 = the fuel) *)
+Lemma validate_sound : forall P k x p, 0 <= p -> in_range Signed (prim_bits k) x = true ->
+  validate_precision P k x p = true -> Z.abs x < 10 ^ p.
+Proof.
+  intros P k x p Hp Hr Hv. unfold validate_precision, digits in Hv.
+  apply andb_true_iff in Hv. destruct Hv as [_ Hv]. apply orb_true_iff in Hv. destruct Hv as [Hv|Hv].
+  - apply Z.eqb_eq in Hv. subst x. cbn [Z.abs]. apply pow10_pos. exact Hp.
+  - apply Z.leb_le in Hv. apply (digits_fuel_lt 60); [exact Hp| |exact Hv].
+    apply in_range_iff in Hr. split; [lia|].
+    assert (Hb : Z.abs x <= 2 ^ 127).
+    { destruct k; cbn [prim_bits lo hi] in Hr; [change (64 - 1) with 63 in Hr|change (128 - 1) with 127 in Hr]; lia. }
+    assert (2 ^ 127 < 10 ^ Z.of_nat 60) by reflexivity. lia.
+Qed.
+
 Lemma cast_dec_exact : forall P m k p s v p' s' M, params_ok P -> 0 <= s <= p -> s <= s' ->
-  p - s <= M -> 0 <= M + s' <= max_prec P k -> Z.abs v < 10 ^ p ->
+  p - s <= M -> 0 <= M + s' <= p' -> p' <= max_prec P k -> Z.abs v < 10 ^ p ->
   cast_operand P m k p' s' (ODec p s v) = Ok (v * 10 ^ (s' - s)).
 Proof.
-  intros P m k p s v p' s' M HP Hs Hs' HM Hmax Hv. cbn [cast_operand].
+  intros P m k p s v p' s' M HP Hs Hs' HM Hp' Hmax Hv. cbn [cast_operand].
   destruct ((p =? p') && (s =? s')) eqn:He.
   - apply andb_true_iff in He. destruct He as [_ He]. apply Z.eqb_eq in He. subst s'.
     rewrite Z.sub_diag. cbn [Z.pow]. f_equal. lia.
-  - unfold checked.
-    pose proof (scaled_bound v p s s' M Hs Hs' HM Hv) as Hb.
-    rewrite (fits_prim P k (M + s') _ HP Hmax Hb). reflexivity.
+  - pose proof (scaled_bound v p s s' M Hs Hs' HM Hv) as Hb.
+    assert (Hle : 10 ^ (M + s') <= 10 ^ p') by (apply Z.pow_le_mono_r; lia).
+    assert (Hb' : Z.abs (v * 10 ^ (s' - s)) < 10 ^ p') by lia.
+    destruct (d2d_validates P).
+    + assert (Hamt : in_range Signed (prim_bits k) (10 ^ (s' - s)) = true).
+      { apply (fits_prim_le P k p'); [exact HP|lia|].
+        pose proof (pow10_pos (s' - s) ltac:(lia)). rewrite Z.abs_eq by lia. apply Z.pow_le_mono_r; lia. }
+      unfold checked at 1. rewrite Hamt. cbn [bind_out]. unfold checked.
+      rewrite (fits_prim P k p' _ HP ltac:(lia) Hb'). cbn [bind_out].
+      rewrite validate_ok by (try assumption; lia). reflexivity.
+    + unfold checked. rewrite (fits_prim P k p' _ HP ltac:(lia) Hb'). reflexivity.
 Qed.
 
 (* decimal (+|-) decimal: if the result precision was not clamped, the result is the exact value and
@@ -147,7 +220,7 @@ Proof.
 Qed.
 
 (* ------------------------------------------------------------ refutations (clamped precision) *)
-Definition P0 : dparams := {| max64 := 18; max128 := 38; pow_i32 := true |}.
+Definition P0 : dparams := {| max64 := 18; max128 := 38; pow_i32 := false; d2d_validates := true |}.
 
 Lemma params_ok_P0 : params_ok P0.
 Proof. unfold params_ok, P0. cbn [max64 max128]. repeat split; try lia; reflexivity. Qed.
@@ -167,12 +240,21 @@ Lemma dec_add_clamped_refuted_scale18 : forall m,
   /\ spec_addsub P0 D64 false (ODec 18 18 500000000000000000) (ODec 18 18 500000000000000000) = Err.
 Proof. intros m. destruct m; vm_compute; auto. Qed.
 
-(* integer operand of a decimal + / -: the scale factor 10^s' is computed in i32 *)
-Lemma int_to_decimal_scale_refuted :
-  dec_addsub P0 Native Release D64 false (ODec 12 10 15000000000) (OInt 8 1) = ((14, 10, false), Ok 16410065408)
-  /\ dec_addsub P0 Native Debug D64 false (ODec 12 10 15000000000) (OInt 8 1) = ((14, 10, false), Panic)
+(* integer operand of a decimal + / -: the scale factor 10^s' is exact now (it used to be computed in i32:
+   panic / wrong value for s' >= 10) *)
+Lemma int_to_decimal_scale_exact_now : forall m,
+  dec_addsub P0 Native m D64 false (ODec 12 10 15000000000) (OInt 8 1) = ((14, 10, false), Ok 25000000000)
   /\ spec_addsub P0 D64 false (ODec 12 10 15000000000) (OInt 8 1) = Ok 25000000000.
-Proof. vm_compute. auto. Qed.
+Proof. intros m. destruct m; vm_compute; auto. Qed.
+
+(* clamped precision, an operand does not fit the common type: the cast now fails (it used to produce an
+   over-precision operand silently); here the exact result 0.5 would be representable in decimal(18,18) *)
+Lemma dec_add_clamped_cast_error_though_representable : forall m,
+  dec_addsub P0 Native m D64 false (ODec 18 0 10) (ODec 18 18 (-9500000000000000000))
+    = ((18, 18, true), Err)
+  /\ dec_addsub P0 Native m D64 false (ODec 18 0 1) (ODec 18 18 (-500000000000000000)) = ((18, 18, true), Err)
+  /\ spec_addsub P0 D64 false (ODec 18 0 1) (ODec 18 18 (-500000000000000000)) = Ok 500000000000000000.
+Proof. intros m. destruct m; vm_compute; auto. Qed.
 
 (* decimal multiplication with clamped precision: too many digits (fits i64), or overflow of the
    primitive (Panic in Debug, a wrapped value in Release) *)
@@ -241,9 +323,9 @@ From GV Require Import gen.TablesArith.
 
 Lemma src_params_ok : exists k64 k128,
   d64_max_precision = Some k64 /\ d128_max_precision = Some k128 /\
-  forall pw, params_ok {| max64 := k64; max128 := k128; pow_i32 := pw |}.
+  forall pw dv, params_ok {| max64 := k64; max128 := k128; pow_i32 := pw; d2d_validates := dv |}.
 Proof.
-  eexists. eexists. split; [reflexivity|]. split; [reflexivity|]. intros pw.
+  eexists. eexists. split; [reflexivity|]. split; [reflexivity|]. intros pw dv.
   unfold params_ok. cbn [max64 max128]. repeat split; try lia; reflexivity.
 Qed.
 
@@ -263,8 +345,8 @@ Qed.
 
 Lemma src_dec_addsub_exact : exists k64 k128,
   d64_max_precision = Some k64 /\ d128_max_precision = Some k128 /\
-  forall pw st m k sub p1 s1 a p2 s2 b p' s',
-  let P := {| max64 := k64; max128 := k128; pow_i32 := pw |} in
+  forall pw dv st m k sub p1 s1 a p2 s2 b p' s',
+  let P := {| max64 := k64; max128 := k128; pow_i32 := pw; d2d_validates := dv |} in
   0 <= s1 <= p1 -> 0 <= s2 <= p2 -> Z.abs a < 10 ^ p1 -> Z.abs b < 10 ^ p2 ->
   add_sub_type P k p1 s1 p2 s2 = (p', s', false) ->
   dec_addsub P st m k sub (ODec p1 s1 a) (ODec p2 s2 b)
@@ -273,13 +355,13 @@ Lemma src_dec_addsub_exact : exists k64 k128,
 Proof.
   destruct src_params_ok as (k64 & k128 & H64 & H128 & HP).
   exists k64, k128. split; [exact H64|]. split; [exact H128|].
-  intros pw st m k sub p1 s1 a p2 s2 b p' s' P. apply dec_addsub_exact_when_not_clamped. exact (HP pw).
+  intros pw dv st m k sub p1 s1 a p2 s2 b p' s' P. apply dec_addsub_exact_when_not_clamped. exact (HP pw dv).
 Qed.
 
 Lemma src_dec_mul_exact : exists k64 k128,
   d64_max_precision = Some k64 /\ d128_max_precision = Some k128 /\
-  forall pw st m k p1 s1 a p2 s2 b p' s',
-  let P := {| max64 := k64; max128 := k128; pow_i32 := pw |} in
+  forall pw dv st m k p1 s1 a p2 s2 b p' s',
+  let P := {| max64 := k64; max128 := k128; pow_i32 := pw; d2d_validates := dv |} in
   0 <= p1 -> 0 <= p2 -> Z.abs a < 10 ^ p1 -> Z.abs b < 10 ^ p2 ->
   mul_type P k p1 s1 p2 s2 = Some (p', s', false) ->
   dec_mul P st m k (ODec p1 s1 a) (ODec p2 s2 b) = Some ((p', s', false), Ok (a * b))
@@ -287,13 +369,14 @@ Lemma src_dec_mul_exact : exists k64 k128,
 Proof.
   destruct src_params_ok as (k64 & k128 & H64 & H128 & HP).
   exists k64, k128. split; [exact H64|]. split; [exact H128|].
-  intros pw st m k p1 s1 a p2 s2 b p' s' P. apply dec_mul_exact_when_not_clamped. exact (HP pw).
+  intros pw dv st m k p1 s1 a p2 s2 b p' s' P. apply dec_mul_exact_when_not_clamped. exact (HP pw dv).
 Qed.
 
-(* the refutation witnesses use the source's MAX_PRECISION constants (pow_i32 P0 = true is the *defective*
-   scale-factor computation: the witness about it is a fact about that variant of the model) *)
-Lemma src_P0 : d64_max_precision = Some (max64 P0) /\ d128_max_precision = Some (max128 P0).
-Proof. split; reflexivity. Qed.
+(* P0, the parameters of the witness lemmas, is the variant the current source has *)
+Lemma src_P0 : d64_max_precision = Some (max64 P0) /\ d128_max_precision = Some (max128 P0) /\
+  int_to_decimal_pow_i32 = Some (if pow_i32 P0 then 1 else 0) /\
+  decimal_to_decimal_validates = Some (if d2d_validates P0 then 1 else 0).
+Proof. repeat split; reflexivity. Qed.
 
 (* sum.rs fails on overflow (the scanner finds no `unwrap_or_default` after checked_add) *)
 Lemma src_sum_fails_on_overflow : sum_resets_on_overflow = Some 0.
